@@ -3,7 +3,8 @@
    records in seeded/<id>/meta.json which checks reported a violation (and with what kind of replay)."""
 import json, os, re, subprocess, sys
 V = os.path.dirname(os.path.dirname(os.path.abspath(__file__)))
-EXTRA = {"C01": ["C06"], "C07": ["C02"], "C19": ["C17", "C10"], "C04": ["C18"], "C02": ["C07", "C05"], "C15": [], "C16": []}
+EXTRA = {"C01": ["C06"], "C07": ["C02"], "C19": ["C17", "C10"], "C04": ["C18"], "C02": ["C07", "C05"], "C15": [], "C16": [],
+         "C10": ["C06", "C05", "C04"], "C11": ["C06"], "C18": ["C06", "C05", "C04"], "C14": []}
 only = sys.argv[1:]
 import shutil, tempfile
 # the evidence files describe the unchanged tree: keep them out of reach of these runs
